@@ -89,6 +89,20 @@ pub fn run(cfg: &Cfg) -> i32 {
             bases.push((c.name.clone(), v));
         }
     }
+    // nesting around the depth limit: both loaders must draw the line at the same place
+    for d in [60usize, 110, 120, 123, 124, 125, 126, 127, 128, 129, 135] {
+        let mut inner = json!(["^deep text", "\n", null]);
+        for _ in 0..d {
+            inner = json!([inner, null]);
+        }
+        bases.push((format!("nested-arrays-{d}"), json!({"inkVersion": 21, "root": [inner, "done", null], "listDefs": {}})));
+        // the same depth reached through named content (array, object, array, ...)
+        let mut named = json!(["^named deep", "\n", null]);
+        for _ in 0..d / 2 {
+            named = json!(["^level", "\n", {"sub": named}]);
+        }
+        bases.push((format!("nested-named-{d}"), json!({"inkVersion": 21, "root": [["^top", "\n", {"sub": named}], "done", null], "listDefs": {}})));
+    }
     let big = |v: &Value| v.to_string().len() > 200_000;
     let mut digests: Vec<(String, u64, String)> = Vec::new();
     let dump = cfg.get("dump-doc").map(|s| s.to_string());
